@@ -68,11 +68,11 @@ RECURSIVE SetToAsc(_)
 SetToAsc(S) == IF S = {} THEN <<>> ELSE LET x == CHOOSE x \in S : \A y \in S : x <= y IN <<x>> \o SetToAsc(S \ {x})
 
 (* ---- payload tables (numerators over WDen) ---- *)
-ValTab == <<0, 128, -384, 1>>
+ValTab == <<0, 128, -384, 16777217>>      \* the last one has 25 significant bits
 ParTab == << <<>>, <<128, 256>>, <<2>> >>
 NameTab == <<"", "net", "my net", "graph">>
-GxW == <<1, 2, 3, 6, 7, 8>>          \* weight symbols a gene can carry
-GxCW == <<1, 3, 6, 7, 8>>            \* weight symbols a module link can carry
+GxW == <<1, 2, 3, 6, 7, 8, 9>>         \* weight symbols a gene can carry
+GxCW == <<1, 3, 6, 7, 8, 9>>           \* weight symbols a module link can carry
 CtrlRoleTab == <<"H", "I", "X">>
 CtrlActTab == <<5, 6, 1, 4>>
 
